@@ -2,7 +2,7 @@
 
 A *case* is (kind, transport, auth, nb, ops): kind in threaded | pool | oneshot | forking, transport in
 tcp | unix, ops = the token strings of lean/Driver/Server.lean (c<k>:<g|b|s|r>, c<k>:g:<j>, m<k>, h<k>, w<k>, k<k>:<g|b>, p<k>, l<k>,
-o<k>:<n>, d<k>:<n>, g<k>, a<k>, z<k>, X, E, i<k>:<hbt..>, r<k>:<hex>).  `Session` starts the real server (threaded / pool / one-shot in this
+o<k>:<n>, d<k>:<n>, g<k>, a<k>, z<k>, X, E, f<k>, i<k>:<hbt..>, r<k>:<hex>).  `Session` starts the real server (threaded / pool / one-shot in this
 process on port 0 or a temp unix path; the forking server in a subprocess, because fork and SIGCHLD want a
 main thread of their own), executes one op at a time with real client sockets, and renders what can be
 observed in the text form the driver prints:
@@ -196,6 +196,34 @@ class PollRecorder(object):
         return self.inner.poll(timeout)
 
 
+def plug_descriptors(above=1100, cap=6000):
+    """occupy every free descriptor number of THIS process up to `above` (dups of /dev/null), so that whatever the server opens
+    from now on - its clients' sockets - gets a number beyond what select() can handle (FD_SETSIZE = 1024): the situation of a
+    server holding about a thousand connections.  Returns the list of plugs, or None when the descriptor limit does not allow it"""
+    import resource
+    soft, hard = resource.getrlimit(resource.RLIMIT_NOFILE)
+    need = above + 600
+    if soft < need:
+        if hard != resource.RLIM_INFINITY and hard < need:
+            return None
+        resource.setrlimit(resource.RLIMIT_NOFILE, (need, hard))
+    dn = os.open("/dev/null", os.O_RDONLY)
+    plugs = [dn]
+    while len(plugs) < cap:
+        d = os.dup(dn)
+        plugs.append(d)
+        if d >= above:
+            break
+    return plugs
+
+
+def readable_now(sock):
+    """select([sock], [], [], 0) without select()'s limit on descriptor numbers"""
+    p = select.poll()
+    p.register(sock.fileno(), select.POLLIN | select.POLLHUP | select.POLLERR)
+    return bool(p.poll(0))
+
+
 class FaultyListener(object):
     """the server's listener socket, whose accept() fails once on demand (`arm(errno)`): an event of the environment the
     harness cannot produce otherwise without really running the process out of descriptors"""
@@ -381,8 +409,15 @@ class InProcBackend(object):
                 self.addr = ("127.0.0.1", self.srv.port)
         except OSError as ex:
             raise Infra("cannot bind a %s listener: %s" % (transport, ex))
+        self.plugs = []
+        if "hifd" in opts:
+            self.plugs = plug_descriptors()
+            if self.plugs is None:
+                raise Infra("the descriptor limit of this process does not allow the high-descriptor scenario")
+            self.base_fds += len(self.plugs)
         if kind == "pool":
             self.srv.poll_object = PollRecorder(self.srv.poll_object)
+        self.spawn_fail = [0]
         self.srv.listener = FaultyListener(self.srv.listener)
         self.nfaults = 0
         self.thread = self.srv._start_in_thread()
@@ -416,6 +451,24 @@ class InProcBackend(object):
         self.nfaults += 1
         return inject_accept_fault(self.srv.listener, self.nfaults)
 
+    def arm_spawn_failure(self):
+        """the next `spawn()` of rpyc.utils.server (the thread a ThreadedServer starts for a new client) fails the way it does at
+        the thread limit; patched into the module namespace at run time, taken out again by `spawn_failure_done`"""
+        from rpyc.utils import server as S
+        if not hasattr(self, "real_spawn"):
+            self.real_spawn = S.spawn
+
+            def spawn(*a, **k):
+                if self.spawn_fail[0]:
+                    self.spawn_fail[0] -= 1
+                    raise RuntimeError("can't start new thread")
+                return self.real_spawn(*a, **k)
+            S.spawn = spawn
+        self.spawn_fail[0] = 1
+
+    def spawn_failure_done(self):
+        return self.spawn_fail[0] == 0
+
     def close_server(self, ceiling):
         """server.close() from a thread of its own, so that a close that does not return is an observation"""
         done = []
@@ -435,6 +488,14 @@ class InProcBackend(object):
         return "-" if done[0] == "ok" else done[0]
 
     def teardown(self):
+        if hasattr(self, "real_spawn"):
+            from rpyc.utils import server as S
+            S.spawn = self.real_spawn
+        for d in self.plugs or []:
+            try:
+                os.close(d)
+            except OSError:
+                pass
         try:
             t = threading.Thread(target=self.srv.close, daemon=True)
             t.start()
@@ -522,6 +583,12 @@ class ForkBackend(object):
     def accept_fault(self):
         return self._cmd("fault")
 
+    def arm_spawn_failure(self):
+        self._cmd("failfork")
+
+    def spawn_failure_done(self):
+        return self._cmd("forkfailed") == "yes"
+
     def teardown(self):
         try:
             self.proc.stdin.write("exit\n")
@@ -602,8 +669,23 @@ def forking_child_main(argv):
     except OSError as ex:
         print(json.dumps(dict(error=str(ex))), flush=True)
         return 2
+    if "hifd" in opts:
+        plugs = plug_descriptors()
+        if plugs is None:
+            print(json.dumps(dict(error="descriptor limit too low for the high-descriptor scenario")), flush=True)
+            return 2
+        base += len(plugs)
     srv.listener = FaultyListener(srv.listener)
-    state = dict(returned=False, close=None, faults=0)
+    state = dict(returned=False, close=None, faults=0, failfork=0)
+    real_fork = os.fork
+
+    def fork():
+        # the parent's fork for a new client fails the way it does at the process limit (armed by the harness: `failfork`)
+        if state["failfork"]:
+            state["failfork"] -= 1
+            raise OSError(errno.EAGAIN, os.strerror(errno.EAGAIN))
+        return real_fork()
+    os.fork = fork
 
     def on_usr1(*a):
         try:
@@ -638,6 +720,11 @@ def forking_child_main(argv):
                     say("hang")
                 else:
                     say(state["close"])
+            elif cmd == "failfork":
+                state["failfork"] = 1
+                say("-")
+            elif cmd == "forkfailed":
+                say("yes" if state["failfork"] == 0 else "no")
             elif cmd == "fault":
                 state["faults"] += 1
                 say(inject_accept_fault(srv.listener, state["faults"]))
@@ -916,8 +1003,7 @@ class Client(object):
                     self.eof = True
                 return self.eof
             while True:
-                r, _, _ = select.select([self.sock], [], [], 0)
-                if not r:
+                if not readable_now(self.sock):
                     return False
                 try:
                     d = self.sock.recv(65536)
@@ -999,7 +1085,8 @@ ITEM_BYTES = {
 # ------------------------------------------------------------------------------------------ session
 class Session(object):
     def __init__(self, kind, transport, auth, nb, call_timeout=CALL_TIMEOUT, opts=()):
-        """opts: "rh" = the service's on_disconnect raises (after it has been recorded); "bc" = the server's protocol_config
+        """opts: "hifd" = the server process holds every descriptor number up to ~1100 before the first client comes (its
+        clients' sockets get numbers select() cannot handle); "rh" = the service's on_disconnect raises (after it has been recorded); "bc" = the server's protocol_config
         carries a `before_closed` hook; "gate" = a client connecting with `s`
         sends GOOD credentials at once and it is the service's constructor that waits (per-session set-up that takes its
         time), until `k<k>:g` lets it finish - to the model the same bookkeeping state as an authenticator that waits"""
@@ -1044,6 +1131,18 @@ class Session(object):
             return self.backend.close_server(self.call_timeout + 1.0)
         if t == "E":
             return self.backend.accept_fault()
+        if t == "f":
+            k = int(rest)
+            if k in self.clients or self.kind not in ("threaded", "forking"):
+                return "skip"
+            self.backend.arm_spawn_failure()
+            c = Client(k, self)
+            res = c.connect("g")
+            if res == "ok":
+                self.clients[k] = c
+            if wait_for(self.backend.spawn_failure_done, 3.0) is None:
+                raise Infra("the armed spawn()/fork() failure was never met")
+            return res
         if t == "c":
             parts = rest.split(":")
             k, cred = int(parts[0]), parts[1]
